@@ -360,6 +360,7 @@ func runC09(c *Ctx) {
 	c.rule("A20", "a copy of n bytes transfers at most n for every n, negative ones included: safeio.CopyNWithContext copies through io.CopyN with the count given on every path", 1)
 	c.copyNBounded("A20")
 	c.c09DeferredCleanupKeepsTheError()
+	c.c09NoDetourAroundTheContext()
 
 	// ---- A19 ----------------------------------------------------------------
 	c.rule("A19", "the kind of the end of a context is read from ctx.Err(), never from context.Cause, anywhere in the module", 0)
@@ -1786,5 +1787,95 @@ func (c *Ctx) c09DeferredCleanupKeepsTheError() {
 				})
 			})
 		}
+	}
+}
+
+// c09NoDetourAroundTheContext (A22): "when the context ends while it runs, it starts no new read …". The operations come in
+// pairs — X and XWithContext — where X is XWithContext(context.Background()). A function that holds a context and calls
+// the plain X of such a pair has stopped handing its context on: the guard at its top still answers for a context that
+// ended before the call, but the work itself runs to the end under a context that never ends. Decided for every function
+// of the module with a context.Context parameter: no call to a function or method for which a sibling of the same name
+// with the suffix WithContext (same receiver type, or same package) exists.
+func (c *Ctx) c09NoDetourAroundTheContext() {
+	c.rule("A22", "a function that holds a context never calls the plain form of an operation that also exists as …WithContext (same receiver or package): the context is handed on, not replaced by one that never ends", 0)
+	n := 0
+	hasCtxSibling := func(g *ssa.Function, iface *types.Interface, method string) bool {
+		if iface != nil {
+			for i := 0; i < iface.NumMethods(); i++ {
+				if iface.Method(i).Name() == method+"WithContext" {
+					return true
+				}
+			}
+			return false
+		}
+		if g == nil {
+			return false
+		}
+		if recv := g.Signature.Recv(); recv != nil {
+			ms := c.Prog.MethodSets.MethodSet(recv.Type())
+			for i := 0; i < ms.Len(); i++ {
+				if ms.At(i).Obj().Name() == g.Name()+"WithContext" {
+					return true
+				}
+			}
+			return false
+		}
+		if g.Pkg != nil && g.Pkg.Func(g.Name()+"WithContext") != nil {
+			return true
+		}
+		return false
+	}
+	for _, sp := range c.SSAPkgs {
+		if !strings.HasPrefix(sp.Pkg.Path(), modPath) {
+			continue
+		}
+		rel := shortPkg(sp.Pkg.Path())
+		// the operations the property names: the I/O helpers and the filesystem operations built on them
+		if rel != fsPkgRel && rel != "safeio" && rel != "hashing" && rel != "parallelisation" {
+			continue
+		}
+		for _, f := range c.srcFuncs(rel) {
+			if f.Blocks == nil {
+				continue
+			}
+			top := outermost(f)
+			if top.Name() == "heartBeat" {
+				continue // the lock's heartbeat: a write of a few bytes after its own gate at every beat (C01/R9), not an operation of the API
+			}
+			holds := false
+			for _, p := range top.Params {
+				if p.Type().String() == "context.Context" {
+					holds = true
+				}
+			}
+			if !holds {
+				continue
+			}
+			allInstrs(f, func(in ssa.Instruction) {
+				cl, ok := in.(*ssa.Call)
+				if !ok {
+					return
+				}
+				name, detour := "", false
+				if cl.Call.IsInvoke() {
+					if it, isI := cl.Call.Value.Type().Underlying().(*types.Interface); isI && strings.HasPrefix(cl.Call.Value.Type().String(), modPath) || isI && strings.Contains(cl.Call.Value.Type().String(), modPath) {
+						name = cl.Call.Method.Name()
+						detour = hasCtxSibling(nil, it, name)
+					}
+				} else if g := staticCallee(&cl.Call); g != nil && inModule(g) {
+					name = g.Name()
+					detour = hasCtxSibling(g, nil, name)
+				}
+				if !detour || strings.HasSuffix(name, "WithContext") {
+					return
+				}
+				n++
+				c.FuncsSeen[fname(top)] = true
+				c.violate("A22", fname(top)+"/detour:"+name, c.ipos(cl), fname(top)+" holds a context and calls "+name+", the form of the operation that runs under context.Background(), although "+name+"WithContext exists: once past its own gate the operation no longer sees the context end — a hash, a copy or a listing cancelled half-way runs to the end and reports success")
+			})
+		}
+	}
+	if n == 0 {
+		c.ok("A22", "module/no-detour-around-the-context", "-", "no function that holds a context calls the context-free form of an operation that has a …WithContext form")
 	}
 }
